@@ -120,7 +120,7 @@ UNITS = [
 VERIFIED_CALLEES = ()
 LEVEL = "other"
 TECHNIQUE = "contract-based deductive verification (VCs from the real AST with ghost call events) + bounded run-time contract checking of auto_cli on generated signatures"
-LEVEL_TEXT = "under construction"
+LEVEL_TEXT = "Proved on _run_component with ghost call events: the component (and for a class the chosen method) is invoked exactly once, each with exactly its own parameters (config/subcommand bookkeeping keys removed), constructor before method, and the callee's return value is returned, for functions, coroutines, classes with method / property / without methods. Bounded only: auto_cli end to end on generated signatures (34 types, 1-3 parameters, all kinds, argv and config)."
 LEVEL_NOTE = "under construction"
 EXPLANATION = "under construction"
 ASSUMPTIONS = []
